@@ -76,7 +76,51 @@ def completeness(pkg):
     extra = set(pkg.listing) - set(pkg.all_filenames)
     if extra:
         probs.append(f"files written but not named in the returned info: {sorted(extra)}")
+    # self-consistency of the package: every file the entry script takes from its own directory ($DIR/<name>) is a file of
+    # the package (filelist.txt is put there by whoever runs the job), and the source file the script installs is the backend's
+    script = pkg.files.get(pkg.main_script, "")
+    import re as _re
+    for name in sorted(set(_re.findall(r"\$DIR/([A-Za-z0-9_.]+)", script))):
+        if name != "filelist.txt" and name not in pkg.files:
+            probs.append(f"the entry script uses $DIR/{name}, which is not a file of the package")
+    want_src = "query.cxx" if pkg.backend == "atlas" else "Analyzer.cc"
+    if want_src not in pkg.files:
+        probs.append(f"the package has no {want_src}")
+    marker = {"atlas": "EL::AnaAlgorithm", "cms_aod": "edm::EDAnalyzer", "cms_miniaod": "edm::one::EDAnalyzer"}[pkg.backend]
+    hdr = pkg.files.get("query.h", "") if pkg.backend == "atlas" else pkg.files.get("Analyzer.cc", "")
+    if marker not in hdr:
+        probs.append(f"the algorithm class of the package is not a {marker} (a file of another backend?)")
     return probs
+
+
+def cross_backend_sequences(rep):
+    """All six orders of the three backends (and the orders of each pair) translated in ONE process, two queries each: every
+    package must be complete and consistent for ITS backend whatever was rendered before."""
+    import itertools
+    from mc.core.translate import translate
+    n = 0
+    qs = {"atlas": ["ds.Select(lambda e: e.Jets('A').Count())", "ds.SelectMany(lambda e: e.Jets('A')).Select(lambda j: j.pt())"],
+          "cms_aod": ["ds.Select(lambda e: e.Muons('A').Count())", "ds.SelectMany(lambda e: e.Muons('A')).Select(lambda j: j.pt())"],
+          "cms_miniaod": ["ds.Select(lambda e: e.Muons('A').Count())", "ds.SelectMany(lambda e: e.Muons('A')).Select(lambda j: j.pt())"]}
+    fresh = {}
+    orders = list(itertools.permutations(qs, 3)) + list(itertools.permutations(qs, 2))
+    for order in orders:
+        for b in order:
+            for q in qs[b]:
+                pkg = translate(q, b)
+                n += 1
+                if not pkg.ok:
+                    rep.violation(f"seq-{n}", f"refused in the sequence {order}: [{b}] {q}: {pkg.exc_msg}", {"query": q, "backend": b, "order": list(order)})
+                    continue
+                for p in completeness(pkg):
+                    rep.violation(f"seq-{n}", f"after translating for {order[:order.index(b)]} the {b} package is inconsistent: {p} :: {q}",
+                                  {"query": q, "backend": b, "order": list(order), "symptom": "incomplete", "problem": p})
+                key = (b, q)
+                names = sorted(pkg.files)
+                if key in fresh and fresh[key] != names:
+                    rep.violation(f"seq-{n}", f"the {b} package holds {names} after {order[:order.index(b)]} but {fresh[key]} otherwise", {"query": q, "backend": b})
+                fresh.setdefault(key, names)
+    return n
 
 
 def post(outs, events):
@@ -204,6 +248,7 @@ def _sweep_chunk(args):
 
 def main(tier="quick"):
     rep = Report(PROP, tier)
+    nseq = cross_backend_sequences(rep)
     known = F.load(PROP)
     events = small_domain()[:6]
     cases = []
@@ -307,6 +352,7 @@ def main(tier="quick"):
     rep.set("states", len(cases) + sweep_n)
     rep.set("transitions", len(cases) + sweep_n)
     rep.set("traces_validated_against_impl", stats["packages"] + sweep_n)
+    stats["cross_backend_sequence_translations"] = nseq
     rep.set("counters", dict(stats))
     rep.set("name_sweep_translations", sweep_n)
     rep.set("outcome_classes", sorted(classes))
